@@ -174,6 +174,7 @@ class Sim:
     self.max_now = 0.0
     self.n_events = 0
     self.scratch = {}   # scenario-owned; returned with the run outcome
+    self.on_failure = []
 
   # ---- trace -------------------------------------------------------------
   def log(self, *ev):
@@ -348,6 +349,13 @@ class Sim:
     """Called by the baton holder: record the failure, wake the harness."""
     if self.failure is None:
       self.failure = failure
+      for hook in self.on_failure:
+        # scenario-supplied snapshots of the state at the moment of failure
+        # (unwinding lets parked threads run on and changes it)
+        try:
+          hook()
+        except Exception:  # pylint: disable=broad-exception-caught
+          pass
     self.aborting = True
     me = self.cur
     self.main_gate.release()
@@ -990,6 +998,9 @@ def install():
 
   threading.current_thread = current_thread
   threading.currentThread = current_thread
+  # `from time import monotonic as _time` inside threading: Semaphore.acquire,
+  # Condition.wait_for, Barrier use it to compute remaining timeouts.
+  threading._time = sim_monotonic  # pylint: disable=protected-access
   queue.SimpleQueue = queue._PySimpleQueue  # pylint: disable=protected-access
   queue.time = sim_monotonic
   time.time = sim_time
